@@ -1358,6 +1358,9 @@ def serial_system(num_nodes, node_order_in_system=None, node_order_in_lists=None
 	# Determine node_order_in_lists.
 	if node_order_in_lists is None:
 		node_order_in_lists = node_order_in_system
+	elif set(node_order_in_lists) != set(node_order_in_system):
+		# (For a single-node system, network_from_edges() would otherwise silently take the node's index from node_order_in_lists.)
+		raise ValueError('node_order_in_lists does not match the nodes in the system')
 
 	# Build network.
 	network = network_from_edges(
@@ -1468,6 +1471,9 @@ def owmr_system(num_retailers, node_order_in_system=None, node_order_in_lists=No
 	# Determine node_order_in_lists.
 	if node_order_in_lists is None:
 		node_order_in_lists = node_order_in_system
+	elif set(node_order_in_lists) != set(node_order_in_system):
+		# (For a single-node system, network_from_edges() would otherwise silently take the node's index from node_order_in_lists.)
+		raise ValueError('node_order_in_lists does not match the nodes in the system')
 
 	# Build network.
 	network = network_from_edges(
@@ -1572,6 +1578,9 @@ def mwor_system(num_warehouses, node_order_in_system=None, node_order_in_lists=N
 	# Determine node_order_in_lists.
 	if node_order_in_lists is None:
 		node_order_in_lists = node_order_in_system
+	elif set(node_order_in_lists) != set(node_order_in_system):
+		# (For a single-node system, network_from_edges() would otherwise silently take the node's index from node_order_in_lists.)
+		raise ValueError('node_order_in_lists does not match the nodes in the system')
 
 	# Build network.
 	network = network_from_edges(
